@@ -239,6 +239,7 @@ func (c *pipeCase) run() pipeOutcome {
 		}
 		return res
 	}
+	mark(c.op("pipe"))
 	before := runtime.NumGoroutine()
 	var out pipeOutcome
 	doneCh := make(chan struct{})
@@ -251,6 +252,7 @@ func (c *pipeCase) run() pipeOutcome {
 			close(doneCh)
 		}()
 		processing.ProcessFeatures(src, targets, f)
+		unmark()
 		retAt = clock.Add(1)
 	}()
 	select {
@@ -489,10 +491,12 @@ func gpkgPipe(e *env, nfeat, ntargets, pagesize int) {
 		}
 		return res
 	}
+	mark(fmt.Sprintf("gpkg-pipe: real SourceGeopackage (%d polygon features, 3 attribute columns) through ProcessFeatures into %d real TargetGeopackages, page size %d", nfeat, ntargets, pagesize))
 	processing.ProcessFeatures(source, targets, f)
 	for _, tg := range tgs {
 		tg.Close()
 	}
+	unmark()
 	source.Close()
 	op := fmt.Sprintf("gpkg-pipe: %d features, 3 attribute columns (cap 4), %d real GeoPackage targets, page size %d", nfeat, ntargets, pagesize)
 	r.count("gpkg-pipe", op, true)
